@@ -35,6 +35,11 @@ func SentinelC(i int) int { return work(i) + 13 }
 //go:noinline
 func H(a int) int { return work(a) + 3000 }
 
+// Gen is a generic function: a mock of an instantiation goes through the wrapper scan (GetInnerFunc) before the patch lock.
+//
+//go:noinline
+func Gen[T int | int64]() T { return T(work(5) + 4000) }
+
 //go:noinline
 func f(a int) int { return work(a) + 1000 }
 
